@@ -175,7 +175,7 @@ def diff_snap(a, b):
     return None
 
 
-OPS = ("group", "points", "curve", "data", "rename", "move", "copy", "remove_ws", "remove_parent", "pg_add", "pg_remove", "reopen", "gc", "flag", "copy_edit", "remove_vertex", "move_data", "protect", "remove_protected")
+OPS = ("group", "points", "curve", "data", "rename", "move", "copy", "remove_ws", "remove_parent", "pg_add", "pg_remove", "reopen", "gc", "flag", "copy_edit", "remove_vertex", "move_data", "protect", "remove_protected", "deferred")
 
 
 def run_ops(case):
@@ -215,6 +215,9 @@ def run_ops(case):
                 Points.create(ws, name=fresh("P"), vertices=np.arange(9.0).reshape(3, 3) + step, parent=pick(groups(), a) or ws.root)
             elif op == "curve":
                 Curve.create(ws, name=fresh("C"), vertices=np.arange(12.0).reshape(4, 3) + step, parent=pick(groups(), a) or ws.root)
+            elif op == "deferred":
+                # the public create_entity(..., save_on_creation=False): the entity is written by the final save on close
+                ws.create_entity(Points, save_on_creation=False, entity={"name": fresh("deferred"), "vertices": np.arange(9.0).reshape(3, 3) - step, "parent": pick(groups(), a) or ws.root})
             elif op == "data":
                 o = pick(objs(), a)
                 if o is not None:
@@ -377,7 +380,7 @@ class ApiHistories(Contract):
     symbolic = False
     has_native = True
     props = ("C01", "C02", "C05", "C09")
-    bounded_scope = "seeded operation sequences of length 6-14 over {create group/points/curve/data, rename, flag, move, copy, copy then edit the copy's values in place, remove a vertex, move a data set to another object, switch a delete permission off and ask for the removal (also after a re-open), remove through the workspace / through the parent, property-group add/remove, re-open, gc}: 40 sequences (quick) / 600 (thorough) + 10 fixed; WF(file) after every close, live tree == re-opened tree, removed entities stay gone, idle open/close leaves all node digests unchanged"
+    bounded_scope = "seeded operation sequences of length 6-14 over {create group/points/curve/data, create a points object without write-through (save_on_creation=False), rename, flag, move, copy, copy then edit the copy's values in place, remove a vertex, move a data set to another object, switch a delete permission off and ask for the removal (also after a re-open), remove through the workspace / through the parent, property-group add/remove, re-open, gc}: 40 sequences (quick) / 600 (thorough) + 13 fixed; WF(file) after every close, live tree == re-opened tree, removed entities stay gone, idle open/close leaves all node digests unchanged"
     fixed = [
         [("group", 0, 0), ("points", 0, 0), ("data", 0, 0), ("data", 0, 0), ("data", 0, 0), ("data", 0, 0), ("remove_ws", 0, 0), ("reopen", 0, 0)],
         [("points", 0, 0), ("data", 0, 0), ("data", 0, 0), ("pg_add", 0, 1), ("pg_add", 0, 0), ("remove_ws", 2, 0), ("reopen", 0, 0)],
@@ -390,6 +393,7 @@ class ApiHistories(Contract):
         [("points", 0, 0), ("protect", 1, 0), ("reopen", 0, 0), ("remove_protected", 0, 0), ("remove_protected", 1, 0)],
         [("points", 0, 0), ("points", 0, 0), ("data", 0, 0), ("data", 0, 0), ("pg_add", 0, 0), ("move_data", 0, 0), ("reopen", 0, 0), ("move_data", 1, 0), ("reopen", 0, 0)],
         [("points", 0, 0), ("data", 0, 0), ("copy_edit", 0, 0), ("reopen", 0, 0), ("copy_edit", 1, 0), ("reopen", 0, 0)],
+        [("group", 0, 0), ("points", 0, 0), ("deferred", 0, 0), ("deferred", 1, 0), ("data", 1, 0), ("reopen", 0, 0), ("deferred", 0, 0), ("reopen", 0, 0)],
         [("group", 0, 0), ("curve", 0, 0), ("data", 0, 0), ("data", 0, 0), ("copy_edit", 0, 0), ("remove_vertex", 0, 2), ("reopen", 0, 0)],
     ]
 
